@@ -111,6 +111,9 @@ def construct(self, st, fv: FuncVal, args, kwargs):
             else:
                 dflt = getattr(ty, "defaults", {}).get(fname)
                 if dflt is None:
+                    if isinstance(fty, Opt):
+                        terms.append(fty.none())      # an optional field left out: its Python default is None (checked against the class by the record declaration)
+                        continue
                     raise Unsupported(f"missing field {fname} constructing {ty.name}")
                 v = dflt(self, st)
             terms.append(coerce(v, fty).term)
